@@ -146,6 +146,12 @@ add("C16", "chain", "model_checking",
     "short trailing bytes and every varint sequence up to a length over boundary integers. Oracle: Index::update returns Ok, no panic.",
     CHAIN_NOTE + " 'Valid' means no double spend, no value creation, coinbase within subsidy+fees; scripts and witnesses are arbitrary.", "DESIGN.md section 5 C16")
 
+add("C20", "wallet", "exploration",
+    "complete product enumeration of small wallet states x send parameters through the real TransactionBuilder, post-conditions recomputed independently",
+    "All multisets of 1..3 (4) wallet outputs over a value lattice x every outgoing output and offset lattice x other inscriptions x runic/locked marks x recipient kinds x targets x fee rates (tens of millions of cases) "
+    "go through TransactionBuilder::new(..).build_transaction(); the result must be an error or a transaction whose FIFO sat positions, inputs, change outputs, dust limits, target bounds and fee satisfy every clause of the property; a panic is a violation.",
+    "The builder is driven directly with hand-made wallet views; values outside the lattice are not covered. One genuine defect is recorded as a known finding (KF-C20-1).", "DESIGN.md section 5 C20")
+
 NOT_YET = "check not built yet in this round (see DESIGN.md build order); not claimed"
 
 def main():
